@@ -65,7 +65,7 @@ func (k *GTElt) Add(a, b kyber.Point) kyber.Point {
 
 func (k *GTElt) Sub(a, b kyber.Point) kyber.Point {
 	nb := newEmptyGT().Neg(b)
-	return newEmptyGT().Add(a, nb)
+	return k.Add(a, nb)
 }
 
 func (k *GTElt) Neg(q kyber.Point) kyber.Point {
